@@ -54,7 +54,7 @@ def hot_frame(scratch, pid):
     except Exception:
         return "?"
     for line in txt.split("\n"):
-        m = re.search(r'File "/repo/([^"]+)", line \d+ in (\w+)', line)
+        m = re.search(r'File "%s/([^"]+)", line \d+ in (\w+)' % re.escape(os.environ.get("GASOL_VERIF_REPO", "/repo")), line)
         if m:
             return "%s:%s" % (m.group(1), m.group(2))
     return "?"
@@ -74,7 +74,7 @@ def run():
     cases = common.gen_cases(n, common.seed(), opts, kinds=["hostile", "hostile", "hostile", "deep", "long", "rule", "splitlong"])
     # blocks of the shipped examples (our own segmentation of the code streams)
     import glob
-    shipped = sorted(glob.glob("/repo/examples/jsons-solc/*.json_solc"), key=os.path.getsize)
+    shipped = sorted(glob.glob(os.environ.get("GASOL_VERIF_REPO", "/repo") + "/examples/jsons-solc/*.json_solc"), key=os.path.getsize)
     shipped = ([p for p in shipped if "0x5552F8" in p] + shipped[:1]) if quick else shipped
     n_ship = 0
     for p in shipped:
@@ -159,7 +159,7 @@ def run():
         if res.cpu_exceeded:
             r.witness("CLI run does not finish within 1200 s of CPU time", {"opts": o})
         elif res.rc != 0:
-            m = re.findall(r'File "/repo/([^"]+)", line \d+, in (\w+)', res.stderr_tail)
+            m = re.findall(r'File "%s/([^"]+)", line \d+, in (\w+)' % re.escape(os.environ.get("GASOL_VERIF_REPO", "/repo")), res.stderr_tail)
             r.witness("CLI exits with status %s (%s)" % (res.rc, "%s:%s" % m[-1] if m else "?"),
                       {"opts": o, "hashseed": hs, "stderr": res.stderr_tail[-800:]})
         elif res.text_file("_optimized.json_solc") is None:
@@ -213,7 +213,7 @@ def fault_injection(r, rnd, n):
         out["faults_injected"] += 1
         out["mode_counts"][mode] = out["mode_counts"].get(mode, 0) + 1
         if f.rc != 0 or f.text_file("_optimized.json_solc") is None:
-            m = re.findall(r'File "/repo/([^"]+)", line \d+, in (\w+)', f.stderr_tail)
+            m = re.findall(r'File "%s/([^"]+)", line \d+, in (\w+)' % re.escape(os.environ.get("GASOL_VERIF_REPO", "/repo")), f.stderr_tail)
             site = next(("%s:%s" % x for x in reversed(m) if x[1] not in ("evm2rbr_compiler", "failing", "<module>", "main_gasol")), "?")
             r.witness("a failure while analysing one block aborts the whole run (escapes at %s, failpoint mode %s)" % (site, mode),
                       {"block": target, "rc": f.rc, "stderr": f.stderr_tail[-700:]})
